@@ -32,6 +32,10 @@ CLAIMS = {
   "For every finite history of energy/gradient requests at arbitrary geometries (which is what numerical-gradient and optimise requests amount to), over an arbitrary scalar and arbitrary term semantics: the answers to a further energy / gradient request are the pure functions of terms and geometry (the buffer's contents never matter, only its length, which is invariant), asking twice gives the same gradient, every answer in the history is the pure value; a variant without the zeroing step is refuted by a two-request witness. The model object (started with a dirty buffer) reproduces recorded answer sequences of real UFF/RB objects bit for bit, and each real answer is compared with a fresh object's.",
   TB + "Modelled: Forcefield::energy/gradient bodies (corresponded on histories). &[Point] immutability is a type-level fact.",
   "Lean 4 proof (invariant over request histories, abstract scalar/terms) + bit-exact history correspondence + fresh-object oracle", "DESIGN.md §5 C07"),
+ "C08": ("proof",
+  "For every permutation of the bond set's enumeration (= every hash seed): neighbour lists, the view atom typing reads (neighbours, aromatic count, order sum), impropers and non-bonded pairs are equal; angles and proper dihedrals are equal as key sets; the UFF stretch/bend/torsion/inversion/van-der-Waals lists are permutations of each other with equal atoms and parameters (rest-length lookup independent of position under unique keys); energy and gradient of permuted term lists are equal over the reals. The deterministic model reproduces every real construction bit for bit, and repeated constructions in one process plus repeated CLI runs are compared on low-symmetry inputs.",
+  TB + "Modelled: set traversals as arbitrary enumerations. Bond-order assignment's order-independence by correspondence/search only. Float sums differ by rounding (checked to 1e-9).",
+  "Lean 4 proof (List.Perm invariance of every traversal) + bit-exact construction correspondence + repeated-construction / repeated-CLI search", "DESIGN.md §5 C08"),
  "C09": ("proof",
   "For every atom count, every distance predicate, every candidate order and every cap function: perceived bonds join distinct atoms within bonding distance, no pair twice, degree ≤ cap, and a pair within distance left unbonded has a saturated end (maximality); orders assignment keeps the pairs. Proved by loop invariants on the hand model of add_bonds/add_bond; the model (with candidate lists computed at f64 as the source does) is tied to the code by correspondence on crowded, tied, coincident and threshold geometries over all elements.",
   TB + "Modelled: perception loops (corresponded). f64 distance predicate evaluated by the driver.",
